@@ -416,14 +416,15 @@ def fieldBindings : Nat → List Name → List (Name × Member)
   | k, a :: r => (a, .field k) :: fieldBindings (k + 1) r
 
 /-- the statements `_message.py.j2` prints into the body of a message class, in order: nested enums and
-    messages; the `raw_page` property iff some field's ATTRIBUTE is `next_page_token`; one declaration per
-    field (`attrs` = `Field.name` of the fields, in order); the `done` property iff the message has an
-    extended-operation STATUS field (`message.extended_operation_status_field`). -/
+    messages; the `raw_page` property iff some field's ATTRIBUTE is `next_page_token`; the `done` property iff
+    the message has an extended-operation STATUS field (`message.extended_operation_status_field`); one
+    declaration per field (`attrs` = `Field.name` of the fields, in order).  (Before the `fix:` commit 4ad018c
+    the `done` property came AFTER the fields and replaced a field of that name; see findings/C02.json, "fixed".) -/
 def classBody (nested attrs : List Name) (hasStatus : Bool) : List (Name × Member) :=
   nested.map (fun n => (n, Member.nested)) ++
   (if "next_page_token".toList ∈ attrs then [("raw_page".toList, Member.rawPage)] else []) ++
-  fieldBindings 0 attrs ++
-  (if hasStatus then [("done".toList, Member.done)] else [])
+  (if hasStatus then [("done".toList, Member.done)] else []) ++
+  fieldBindings 0 attrs
 
 def classDict (nested attrs : List Name) (hasStatus : Bool) : ClassDict :=
   (classBody nested attrs hasStatus).foldl bindName []
